@@ -506,3 +506,12 @@ Theorem C12_retry_after_value : forall lft : Z, (0 < lft)%Z ->
   (retry_after_secs lft = 0 <-> lft < second_ns)%Z.
 Proof. exact retry_after_value. Qed.
 Print Assumptions C12_retry_after_value.
+
+(** Sessions are kept in whole seconds, the clock rounded down
+    ([time.Now().UTC().Unix()]): "the instant is before the expiry" and "the
+    truncated clock is below the expiry" are the same test, so the session
+    theorems above, stated in seconds, hold at the resolution of instants. *)
+Theorem C12_session_clock_truncation_exact : forall ns e : Z,
+  (ns / second_ns < e <-> ns < e * second_ns)%Z.
+Proof. exact unix_truncation_exact. Qed.
+Print Assumptions C12_session_clock_truncation_exact.
